@@ -420,6 +420,53 @@ class Gen:
         o["granular_markings"] = [gm]
 
 
+_SEL = _re0.compile(r"^([a-z0-9_-]{3,250}(\.(\[\d+\]|[a-zA-Z0-9_-]{1,250}))*|id)$")
+
+
+def selector_paths(o, max_depth=4):
+    """Every path of the object as a granular-marking selector: top-level properties, list elements, properties of
+    embedded objects inside lists, dictionary keys, nested (those that are syntactically selectors)."""
+    out = []
+
+    def go(prefix, v, depth):
+        out.append(prefix)
+        if depth >= max_depth:
+            return
+        if isinstance(v, dict):
+            for k, w in v.items():
+                go(prefix + "." + k, w, depth + 1)
+        elif isinstance(v, list):
+            for i, w in enumerate(v):
+                go(prefix + ".[%d]" % i, w, depth + 1)
+    for k, v in o.items():
+        if k != "granular_markings":
+            go(k, v, 1)
+    return [p for p in out if _SEL.match(p)]
+
+
+def path_marked(gen, cid, o, n=10):
+    """The object with ONE granular marking whose selectors are up to n of its own paths, of every shape present
+    (None when the class has no granular_markings)."""
+    c = gen.classes[cid]
+    if not any(s["name"] == "granular_markings" for s in c["slots"]):
+        return None
+    paths = selector_paths(o)
+    if not paths:
+        return None
+    r = gen.rng
+    by_shape = {}
+    for p in paths:
+        shape = (p.count("."), p.count("["), p.endswith("]"))
+        by_shape.setdefault(shape, []).append(p)
+    chosen = [r.choice(v) for v in by_shape.values()]
+    rest = [p for p in paths if p not in chosen]
+    r.shuffle(rest)
+    sels = (chosen + rest)[:max(n, len(chosen))]
+    x = dict(o)
+    x["granular_markings"] = [{"selectors": sels, "marking_ref": "marking-definition--" + gen.uuid()}]
+    return x
+
+
 # ---------------------------------------------------------------- corruption
 
 def junk_values():
